@@ -103,12 +103,7 @@ func sameLocationLoad(fn *ssa.Function, a, b ssa.Value) bool {
 		}
 		return false
 	}
-	found, hit, _ := PathQuery{Start: ia, Target: writer, Barrier: func(x ssa.Instruction) bool { return x == ib }}.Find(fn)
-	if !found {
-		return true
-	}
-	again, _, _ := PathQuery{Start: hit, Target: func(x ssa.Instruction) bool { return x == ib }}.Find(fn)
-	return !again
+	return !interveningWriter(fn, ia, ib, writer, nil)
 }
 
 // mayBeNil: may error value v be nil when instruction `at` executes?
